@@ -252,10 +252,27 @@ def plan():
     P["C12"] = [fd_sched(86400, ("quick", "thorough")), fd_sched(10, ("quick", "thorough")), lib_hb(0, ("quick", "thorough")), lib_hb(2, ("thorough",), mem=30), lib_hb(1, ("thorough",), mem=20),
                 snd_decision(False, ("quick", "thorough")), classify(0, ("quick", "thorough")), classify(4, ("thorough",)), fd_sched(3600, ("thorough",)), snd_decision(True, ("thorough",))]
     P["C11"] += [lib_hb(0, ("quick", "thorough")), lib_hb(1, ("thorough",), mem=20)]
+    P["C11"] += [H("c11_try_set_heartbeat", "c11_hb_kernel()", covers=["two fresh heartbeats in a row", "lower heartbeat after a known one"], funcs=["state.rs::NodeState::try_set_heartbeat"],
+                   bounds={"heartbeats": "three reports, u64 full width, symbolic (first one included: the initial-value rule)"}, cuts=[CUT_LISTENER],
+                   desc="a report is fresh evidence iff strictly higher than a known non-initial value; equal / lower / replayed values change nothing", mem=6)]
     def digest(two, tiers):
         return H(f"c12_digest_{2 if two else 1}", f"c12_digest({str(two).lower()})", tiers=tiers, covers=["one member scheduled for deletion"], funcs=["state.rs::ClusterState::compute_digest", "state.rs::NodeState::digest"],
                  cuts=[CUT_LISTENER], bounds={"members": 2 if two else 1, "scheduled_for_deletion": "symbolic", "frontier_heartbeat": "u64 symbolic"}, desc="digest lists exactly the members not scheduled for deletion, verbatim", mem=20 if two else 6, timeout=1800)
     P["C12"] += [digest(False, ("quick", "thorough")), digest(True, ("thorough",))]
+    # ---------------- C16
+    OWN = {0: "'c'", 1: "''", 2: "'cc'"}
+    def c16(kind, known, tiers):
+        return H(f"lib_badcluster_any_{kind}_{'known' if known else 'unknown'}", f"lib_bad_cluster({10 + kind}, {str(known).lower()})", mod="lib", macro="h_lib_c16", unwind=4, tiers=tiers, rules=R_COMMON,
+                 covers=(["foreign id differs by case only", "foreign id empty", "own id is a prefix of the foreign id"] if kind == 0 else []) + (["foreign digest names an unknown member"] if not known else []),
+                 funcs=["lib.rs::Chitchat::process_message (Syn arm, cluster id test)", "lib.rs::Chitchat::update_self_heartbeat"],
+                 cuts=[CUT_LISTENER, "Chitchat::report_heartbeats_in_digest and Chitchat::process_delta replaced by a marker (a foreign SYN must never reach them)",
+                       "compute_partial_delta_respecting_mtu / compute_digest replaced by trivial stubs (only reachable on the same-cluster path, where any reply other than BadCluster already is the violation)"],
+                 bounds={"own cluster id": OWN[kind], "foreign cluster id": "ANY ASCII string of 0..=2 bytes different from the own id (length and bytes symbolic)",
+                         "digest": "one member, contents symbolic (all u64)", "member of the digest known to the node": known},
+                 desc="a SYN of another cluster is answered with BadCluster only; digest never processed; membership, copies, detector untouched; own heartbeat ticks once", mem=24 if kind == 1 else 14, timeout=2400)
+    P["C16"] = [H("lib_badcluster_reply", "lib_bad_cluster_reply()", mod="lib", macro="h_lib", unwind=4, rules=R_COMMON, funcs=["lib.rs::Chitchat::process_message (BadCluster arm)"], cuts=[CUT_LISTENER],
+                  bounds={"state": "own node only"}, desc="a rejection is terminal for the initiator and changes nothing", mem=8),
+                c16(0, False, ("quick", "thorough")), c16(0, True, ("quick", "thorough")), c16(1, False, ("thorough",)), c16(1, True, ("thorough",)), c16(2, False, ("thorough",)), c16(2, True, ("thorough",))]
     # ---------------- C15
     PFX = {0: "''", 1: "'a'", 2: "'e-acute'", 3: "'a e-acute'", 4: "'grinning-face (4 bytes)'", 5: "'aaaa' (decoy: never a prefix of a 2-symbol key, sorts inside the scanned range)"}
     def c15d(p0, p1, two, drop, forever, tiers):
@@ -268,7 +285,14 @@ def plan():
         return H(f"c15_nopanic_{int(w)}", f"c15_any_key_no_panic({str(w).lower()})", mod="listener", macro="h_lst", unwind=6, tiers=tiers, rules=[(r"^memcmp", None, 9)], covers=["three-byte first character"],
                  funcs=["listener.rs::InnerListeners::trigger_event"], bounds={"key": "0..=2 arbitrary chars (all UTF-8 encodings of 1-4 bytes)", "subscriptions": "none" if not w else "one, empty prefix"},
                  desc="dispatch never panics on any key (F-2 regression check)", mem=14, timeout=1800)
-    P["C15"] = [c15n(False, ("quick", "thorough")), c15d(5, 3, True, False, False, ("quick", "thorough")), c15d(1, 0, False, False, False, ("thorough",)), c15d(5, 1, True, False, False, ("thorough",)), c15d(2, 0, True, False, False, ("thorough",)), c15d(1, 3, True, True, True, ("quick", "thorough")),
+    def c15s(p, order, late, tiers):
+        return H(f"c15_same_{p}_{order}{'_late' if late else ''}", f"c15_same_prefix({p}, {order}, {str(late).lower()})", mod="listener", macro="h_lst", unwind=6, tiers=tiers, rules=[(r"^memcmp", None, 9)], covers=["the shared prefix matches the key"],
+                 funcs=["listener.rs::Listeners::{subscribe_event,trigger_event}", "listener.rs::InnerListeners::{subscribe_event,trigger_event,remove_listener}", "listener.rs::ListenerHandle::drop"],
+                 bounds={"prefix shared by all subscriptions": PFX[p], "order": "subscribe A, subscribe B, drop " + ("A" if order == 0 else "B") + ", subscribe C" + (", drop " + ("B" if order == 0 else "A") if late else "") + ", write",
+                         "key": "0..=1 symbols chosen by the solver from {a (1 byte), e-acute (2 bytes), grinning-face (4 bytes)}"},
+                 desc="subscriptions sharing one prefix stay independent across drop / re-subscribe: each live one is called exactly once per matching write, a dropped one never", mem=14, timeout=1800,
+                 cuts=["callbacks are plain fn pointers bumping per-subscription counters"])
+    P["C15"] = [c15s(1, 0, False, ("quick", "thorough")), c15s(1, 0, True, ("thorough",)), c15s(1, 1, False, ("thorough",)), c15s(0, 0, False, ("thorough",)), c15s(2, 1, True, ("thorough",))] + [c15n(False, ("quick", "thorough")), c15d(5, 3, True, False, False, ("quick", "thorough")), c15d(1, 0, False, False, False, ("thorough",)), c15d(5, 1, True, False, False, ("thorough",)), c15d(2, 0, True, False, False, ("thorough",)), c15d(1, 3, True, True, True, ("quick", "thorough")),
                 c15n(True, ("thorough",))] + [c15d(a, b, True, False, False, ("thorough",)) for (a, b) in ((0, 1), (1, 3), (2, 4), (3, 4), (0, 4), (1, 2))] + \
         [c15d(3, 0, False, False, False, ("thorough",)), c15d(4, 0, False, False, False, ("thorough",)), c15d(0, 1, True, True, False, ("thorough",)), c15d(2, 2, True, False, True, ("thorough",))]
     # ---------------- C17
